@@ -259,10 +259,10 @@ fn format_attribute(
     if let Some((last, main)) = attr.arguments.split_last() {
         output.push('(');
         for expr in main {
-            format_expression(expr, output, context)?;
+            format_expression_no_seq(expr, output, context)?;
             output.push_str(", ");
         }
-        format_expression(last, output, context)?;
+        format_expression_no_seq(last, output, context)?;
         output.push(')');
     }
 
@@ -293,7 +293,7 @@ fn format_function_param(
 
     if let Some(default_expr) = &param.default_expr {
         output.push_str(" = ");
-        format_expression(default_expr, output, context)?;
+        format_expression_no_seq(default_expr, output, context)?;
     }
 
     Ok(())
@@ -555,7 +555,7 @@ fn format_declarator(
 
             output.push('[');
             if let Some(expr) = array_size {
-                format_expression(expr, output, context)?;
+                format_expression_no_seq(expr, output, context)?;
             }
             output.push(']');
             format_attributes(attributes, false, false, output, context)?;
@@ -599,7 +599,7 @@ fn format_expression_or_type(
 ) -> Result<(), FormatError> {
     match value {
         ast::ExpressionOrType::Expression(expr) | ast::ExpressionOrType::Either(expr, _) => {
-            format_expression(expr, output, context)
+            format_expression_no_seq(expr, output, context)
         }
         ast::ExpressionOrType::Type(ty) => format_type_id(ty, output, context),
     }
@@ -865,6 +865,15 @@ fn format_expression(
     context: &mut FormatContext,
 ) -> Result<(), FormatError> {
     format_subexpression(expr, u32::MAX, OperatorSide::Middle, output, context)
+}
+
+/// Format an expression in a context where a top level comma would end the expression
+fn format_expression_no_seq(
+    expr: &ast::Expression,
+    output: &mut String,
+    context: &mut FormatContext,
+) -> Result<(), FormatError> {
+    format_subexpression(expr, 17, OperatorSide::CommaList, output, context)
 }
 
 enum OperatorSide {
@@ -1169,7 +1178,7 @@ fn format_initializer_inner(
     context: &mut FormatContext,
 ) -> Result<(), FormatError> {
     match init {
-        ast::Initializer::Expression(expr) => format_expression(expr, output, context)?,
+        ast::Initializer::Expression(expr) => format_expression_no_seq(expr, output, context)?,
         ast::Initializer::Aggregate(exprs) => {
             output.push_str("{ ");
             let (head, tail) = exprs.split_first().unwrap();
@@ -1267,7 +1276,7 @@ fn format_enum(
 
         if let Some(expr) = &value.value {
             output.push_str(" = ");
-            format_expression(expr, output, context)?;
+            format_expression_no_seq(expr, output, context)?;
         }
 
         output.push(',');
